@@ -172,7 +172,7 @@ def _containing_elem(f, pos, i):
     while i >= 0:
         if i in pos:
             return pos[i]
-        i = f.parent.get(i, -1)
+        i = f.parent[i]
     return None
 
 
